@@ -1239,6 +1239,7 @@ class _TextCensus:
         self.const_tables: set[str] = set()
         self.funcs: dict[str, ast.FunctionDef] = {}
         self.sites: list[tuple[int, str, str, str]] = []   # (line, class, type, source)
+        self.cond_lines: list[list] = []                   # written templates holding a quoted-on-demand field
         for n in self.tree.body:
             if isinstance(n, ast.Assign) and len(n.targets) == 1 and isinstance(n.targets[0], ast.Name):
                 self._maybe_table(n.targets[0].id, n.value)
@@ -1361,6 +1362,8 @@ class _TextCensus:
                     flat[-1] = ('lit', flat[-1][1] + p[1])
                 elif not (p[0] == 'lit' and p[1] == ''):
                     flat.append(p)
+            if cond and any(p[0] == 'fld' and p[3] in cond for p in flat):
+                self.cond_lines.append([('lit', p[1]) if p[0] == 'lit' else ('fld', p[3] in cond) for p in flat])
             for i, p in enumerate(flat):
                 if p[0] != 'fld':
                     continue
@@ -1886,6 +1889,62 @@ def _snd_stack_model(cls: ast.ClassDef, fn: ast.FunctionDef, parse_one: ast.Func
     return lines, side
 
 
+def _vmt_needs_quotes(vmt_tree: ast.Module) -> tuple[str, dict]:
+    """vmt._needs_quotes as a decision table: `not text or text[0] in LEADING or any(c in DISALLOWED for c in text)`; the names are
+    resolved to string / frozenset literals in vmt.py or, for names imported from the tokenizer, in tokenizer.py."""
+    fn = next((n for n in vmt_tree.body if isinstance(n, ast.FunctionDef) and n.name == '_needs_quotes'), None)
+    if fn is None or len(fn.args.args) != 1:
+        raise TranslateError('vmt.py: _needs_quotes(text) not found')
+    arg = fn.args.args[0].arg
+    body = [b for b in fn.body if not (isinstance(b, ast.Expr) and isinstance(b.value, ast.Constant))]
+    if len(body) != 1 or not isinstance(body[0], ast.Return) or body[0].value is None:
+        raise TranslateError('vmt.py: _needs_quotes is not a single return')
+    e = body[0].value
+    tok_tree = ast.parse(src_text('tokenizer.py'))
+
+    def chars(x: ast.AST, depth: int = 0) -> str:
+        if isinstance(x, ast.Constant) and isinstance(x.value, str):
+            return x.value
+        if isinstance(x, ast.Call) and ast.unparse(x.func) in ('frozenset', 'set') and len(x.args) == 1:
+            return chars(x.args[0], depth + 1)
+        if isinstance(x, ast.Name) and depth < 3:
+            for tree in (vmt_tree, tok_tree):
+                for n in tree.body:
+                    tgt = n.targets[0] if isinstance(n, ast.Assign) and len(n.targets) == 1 else n.target if isinstance(n, ast.AnnAssign) else None
+                    if isinstance(tgt, ast.Name) and tgt.id == x.id and getattr(n, 'value', None) is not None:
+                        return chars(n.value, depth + 1)
+        raise TranslateError(f'vmt.py: _needs_quotes: character set `{ast.unparse(x)}` not recognised')
+    empty = False
+    leading = ''
+    disallowed = ''
+    for t in (e.values if isinstance(e, ast.BoolOp) and isinstance(e.op, ast.Or) else [e]):
+        if isinstance(t, ast.UnaryOp) and isinstance(t.op, ast.Not) and isinstance(t.operand, ast.Name) and t.operand.id == arg:
+            empty = True
+        elif isinstance(t, ast.Compare) and len(t.ops) == 1 and isinstance(t.ops[0], ast.Eq) and ast.unparse(t.left) == arg \
+                and isinstance(t.comparators[0], ast.Constant) and t.comparators[0].value == '':
+            empty = True
+        elif isinstance(t, ast.Compare) and len(t.ops) == 1 and isinstance(t.ops[0], ast.In) and ast.unparse(t.left) in (f'{arg}[0]', f'{arg}[:1]'):
+            if not empty:
+                raise TranslateError('vmt.py: _needs_quotes: first character tested before the empty string is excluded')
+            leading += chars(t.comparators[0])
+        elif isinstance(t, ast.Call) and ast.unparse(t.func) == f'{arg}.startswith' and len(t.args) == 1 and isinstance(t.args[0], ast.Tuple) \
+                and all(isinstance(x, ast.Constant) and isinstance(x.value, str) and len(x.value) == 1 for x in t.args[0].elts):
+            leading += ''.join(x.value for x in t.args[0].elts)
+        elif isinstance(t, ast.Call) and isinstance(t.func, ast.Name) and t.func.id == 'any' and len(t.args) == 1 \
+                and isinstance(t.args[0], ast.GeneratorExp) and len(t.args[0].generators) == 1 and not t.args[0].generators[0].ifs \
+                and ast.unparse(t.args[0].generators[0].iter) == arg and isinstance(t.args[0].generators[0].target, ast.Name) \
+                and isinstance(t.args[0].elt, ast.Compare) and len(t.args[0].elt.ops) == 1 and isinstance(t.args[0].elt.ops[0], ast.In) \
+                and ast.unparse(t.args[0].elt.left) == t.args[0].generators[0].target.id:
+            disallowed += chars(t.args[0].elt.comparators[0])
+        else:
+            raise TranslateError(f'vmt.py: _needs_quotes: term `{ast.unparse(t)}` not recognised')
+
+    def cl(x: str) -> str:
+        return '[' + '; '.join(str(ord(c)) for c in sorted(set(x))) + ']%N'
+    line = f'Definition vmt_nq : nqcfg := mkNq {str(empty).lower()} {cl(leading)} {cl(disallowed)}.   (* vmt._needs_quotes *)'
+    return line, {'empty': empty, 'leading': sorted(set(leading)), 'disallowed': sorted(set(disallowed))}
+
+
 def translate_text_writers() -> tuple[str, dict]:
     # ---- soundscripts
     snd = _TextCensus('sndscript.py')
@@ -1902,6 +1961,10 @@ def translate_text_writers() -> tuple[str, dict]:
     vmt.ann.setdefault('shader', set()).add('str')
     vmt.walk('Material.export')
     vmt.walk('_write_block')
+    nq_line, nq_side = _vmt_needs_quotes(vmt.tree)
+    line_ok = bool(vmt.cond_lines) and all(cl == [('lit', '\t'), ('fld', True), ('lit', ' '), ('fld', True), ('lit', '\n')] for cl in vmt.cond_lines)
+    nq_line += f'\nDefinition vmt_param_line_is_tab_name_space_value_newline : bool := {str(line_ok).lower()}.'
+    nq_side['param_line_templates'] = [[list(x) for x in cl] for cl in vmt.cond_lines]
     # ---- choreo text
     cho = _TextCensus('choreo.py')
     tags_const = cho.const_callers('export_text', 3)
@@ -1920,7 +1983,7 @@ def translate_text_writers() -> tuple[str, dict]:
         '(* GENERATED by translate/c20_formats.py from sndscript.py (Sound.export, Sound.parse_one), vmt.py (Material.export, _write_block),',
         '   choreo.py (the export_text methods). Do not edit. *)',
         'From Coq Require Import NArith List.', 'Import ListNotations.',
-        'From SV Require Import Fmt.TextFields Fmt.SndStacks.',
+        'From SV Require Import Fmt.TextFields Fmt.SndStacks Fmt.VmtQuote.',
         _coq_sites('snd_fields', snd.sites),
         _coq_sites('vmt_fields', vmt.sites),
         _coq_sites('cho_fields', cho.sites),
@@ -1929,10 +1992,11 @@ def translate_text_writers() -> tuple[str, dict]:
         'Definition snd_stacks_read : list (list N * list N) := ['
         + '; '.join(f'({cs(a)}, {cs(b)})' for a, b in read) + '].   (* block name, attribute it is read into *)',
         *model_lines,
+        nq_line,
         '',
     ]
     side = {'sndscript': [list(s) for s in snd.sites], 'vmt': [list(s) for s in vmt.sites], 'choreo': [list(s) for s in cho.sites],
-            'stacks_written': written, 'stacks_read': read, 'stack_model': model_side,
+            'stacks_written': written, 'stacks_read': read, 'stack_model': model_side, 'vmt_needs_quotes': nq_side,
             'digests': {'Sound.export': ast_digest(fn_snd)}}
     return '\n'.join(lines), side
 
